@@ -66,8 +66,29 @@ def raw_messages(w, limit):
     return out
 
 
+BLOCK_S = 60      # an operation of the parent API that has not returned after this long counts as blocked
+
+
+def force_stop(holder):
+    for w in holder:
+        try:
+            w.terminate(timeout=1, force=True)
+        except BaseException:   # noqa
+            pass
+
+
 def run_child_case(kind, c, host=None):
+    holder = []
+    done, ob = core.with_deadline(_run_child_case, BLOCK_S, kind, c, host, holder)
+    if not done:
+        force_stop(holder)
+        return dict(dead=False, msgs=[], has_error=None, result=None, blocked=True)
+    return ob
+
+
+def _run_child_case(kind, c, host, holder):
     w = make_worker(kind, c['d'], c['tuple'], c['dk'], host)
+    holder.append(w)
     try:
         for ea, ek in c['es']:
             w.enqueue(*[box(x) for x in ea], **{f'k{n}': box(v) for n, v in ek})
@@ -118,6 +139,8 @@ def expected_values(c):
 def oracle_child(c, ob):
     exp = expected_values(c)
     want = [(i + 1, True, v) for i, v in enumerate(exp)] + [(len(exp), False, None)]
+    if ob.get('blocked'):
+        return f'enqueue/wait did not return within {BLOCK_S} s'
     if not ob['dead']:
         return 'worker did not finish after wait()'
     if ob['msgs'] != want:
@@ -173,9 +196,18 @@ def gen_history(rnd):
 
 
 def run_history(kind, d, dk, ops, host=None):
+    holder, obs = [], []
+    done, _ = core.with_deadline(_run_history, BLOCK_S, kind, d, dk, ops, host, holder, obs)
+    if not done:
+        obs = list(obs) + ['OBlocked']       # the operation after the ones observed so far never returned
+        force_stop(holder)
+    return obs
+
+
+def _run_history(kind, d, dk, ops, host, holder, obs):
     from pyworkers.persistent import WorkerClosedError
     w = make_worker(kind, d, False, dk, host)
-    obs = []
+    holder.append(w)
     try:
         for op in ops:
             if op[0] == 'enq':
@@ -224,6 +256,9 @@ def hist_term(d, dk, ops, obs):
 def oracle_history(d, dk, ops, obs):
     """C05 read directly: values come out in enqueue order, once each; enqueue after close raises."""
     accepted, delivered, closed = [], [], False
+    if obs and obs[-1] == 'OBlocked':
+        k = len(obs) - 1
+        return f'operation {k} ({ops[k][0] if k < len(ops) else "clean-up"}) of the history did not return within {BLOCK_S} s (the histories only contain calls that must not block)'
     for op, ob in zip(ops, obs):
         if op[0] in ('enq', 'call'):
             if closed:
@@ -291,7 +326,8 @@ def main(tier, seed, replay=None):
                 why = oracle_child(c, ob)
                 if why:
                     res.violation(dict(kind=kind, d=c['d'], tuple=c['tuple'], dk=c['dk'], es=c['es']), why, observed=ob)
-                terms.append(child_term(kind, c, ob)); keep.append((kind, c, ob))
+                if not ob.get('blocked'):
+                    terms.append(child_term(kind, c, ob)); keep.append((kind, c, ob))
             e1, e2 = ([1], []), ([2, 3], [])
             systematic = [[('close',), ('enq', e1)], [('enq', e1), ('close',), ('enq', e2), ('next',), ('next',)],
                           [('wait',), ('enq', e1)], [('enq', e1), ('enq', e2), ('next',), ('wait',), ('next',), ('next',)],
@@ -307,7 +343,8 @@ def main(tier, seed, replay=None):
                 why = oracle_history(d, [], ops, obs)
                 if why:
                     res.violation(dict(kind=kind, d=d, ops=[list(o) for o in ops]), why, observed=obs)
-                terms.append(hist_term(d, [], ops, obs)); keep.append((kind, dict(d=d, ops=ops), obs))
+                if not (obs and obs[-1] == 'OBlocked'):
+                    terms.append(hist_term(d, [], ops, obs)); keep.append((kind, dict(d=d, ops=ops), obs))
     finally:
         if server is not None:
             server.terminate(force=True)
